@@ -108,6 +108,10 @@ func checkGradient(c Case) error {
 		} else if !g.Init(render.Shape(b2i(c.Radial)), render.Spread(c.Spread), render.Aff3(c.Matrix), rs) {
 			return harness.Violatef("c15/init", "Gradient.Init rejects %d valid stops", len(rs))
 		}
+		// the stop list was the caller's: it may be reused for something else at once
+		for i := range rs {
+			rs[i] = render.Stop{Offset: float64(len(rs) - i), RGBA64: color.RGBA64{R: 1, G: 2, B: 3, A: 0xffff}}
+		}
 		at = g.At
 		m = c.Matrix
 	} else {
